@@ -1,4 +1,5 @@
 """C07 -- frames that are not accepted change nothing (2-safety / non-interference)."""
+import re
 from .. import adevhist, ndevhist, core, machist, macstage, lw
 
 ID = "C07"
@@ -156,6 +157,55 @@ def frontend_twins(rng, tier):
     return out
 
 
+def frontend_twins_classc(rng, tier):
+    """Class C twins through the asynchronous front-end: while the device listens on the RXC parameters between the Class A windows the
+    twin hears frames rejected by construction where the base hears nothing; a rejected frame must not end the wait for the window, move
+    a window or change any later response (the only difference allowed is the extra listening call itself)"""
+    out = []
+    nwk, app, addr = adevhist.NWK, adevhist.APP, adevhist.ADDR
+    for i in range(60 if tier == "quick" else 800):
+        r = rng.fork("fc%d" % i)
+        region = r.choice([5, 8, 0, 4, 6, 7, 3])
+        down = [0]
+
+        def rejected():
+            k = r.below(4)
+            if k == 0:
+                return r.bytes(r.range(1, 40))
+            if k == 1:
+                return lw.data_frame(3, addr, 0, down[0] + 1, b"", 7, b"zz", r.bytes(16), app)
+            if k == 2:
+                f = bytearray(lw.data_frame(3, addr, 2, down[0] + 1, bytes([0x08, 3]), None, b"", nwk, app))
+                f[-1 - r.below(4)] ^= 1 << r.below(8)
+                return bytes(f)
+            return down[1] if len(down) > 1 else bytes([0xE0]) + r.bytes(11)
+        sess = "session=%s:%s:%d:%d" % (nwk.hex(), app.hex(), addr, r.choice([0, 3, 0xFFFE]))
+        base, twin = [], []
+        for _ in range(r.range(2, 5)):
+            evb, evt = [], []
+            for _w in range(2):
+                # listening until the window: nothing (base) / some rejected frames, then nothing (twin)
+                evb.append("P")
+                evt += ["X" + rejected().hex() for _ in range(r.below(3))] + ["P"]
+                if r.below(3) == 0:
+                    down[0] += 1
+                    g = lw.data_frame(r.choice([3, 5]), addr, 2, down[0], bytes([0x08, r.below(16)]), None, b"", nwk, app)
+                    down[1:] = [g]
+                    evb.append("X" + g.hex()); evt.append("X" + g.hex())
+                    break
+                evb.append("T"); evt.append("T")
+            op = "send %s %d %d %s " % (r.hex(r.below(5)), r.range(1, 223), r.below(2), machist.draws(r, 40))
+            base.append(op + ",".join(evb)); twin.append(op + ",".join(evt))
+        head = "adev r=%d lead=%d classc=1 fault=- bias=- %s | " % (region, r.choice([0, 15, 100]), sess)
+        out.append((head + " | ".join(base + ["fcnt"]), head + " | ".join(twin + ["fcnt"])))
+    return out
+
+
+def drop_listening(output):
+    """an output line without the Class C listening calls (rx_continuous..., setup_rx[... cont])"""
+    return re.sub(r"  +", " ", re.sub(r"rx_continuous\S*|setup_rx\[[^\]]* cont\]", "", output))
+
+
 def run(rep, tier, rng):
     core.proof_stage(rep, ID, THEOREMS)
     if not core.build_both(rep):
@@ -205,6 +255,20 @@ def run(rep, tier, rng):
                 rep.violation({"kind": "front-end twins diverge: a frame the reference rejects, heard in a receive window, changed what the device does afterwards",
                                "base_history": b, "case": t, "at_op": k, "base_output": (xs[k] if k < len(xs) else "<missing>")[:600],
                                "twin_output": (ys[k] if k < len(ys) else "<missing>")[:600]}, concrete=True)
+    fc = frontend_twins_classc(rng.fork("fctwins"), tier)
+    core.diff_stage(rep, "X:C07:front-ends(class C twins)", [b for b, _ in fc] + [t for _, t in fc], lambda c, i, m: None)
+    io3 = core.run_lines(core.harness_bin(), [b for b, _ in fc] + [t for _, t in fc])
+    for i, (b, t) in enumerate(fc):
+        x, y = drop_listening(io3[i]), drop_listening(io3[len(fc) + i])
+        if x != y:
+            bad += 1
+            if bad <= 3:
+                xs, ys = x.split(" ; "), y.split(" ; ")
+                k = next((j for j in range(min(len(xs), len(ys))) if xs[j] != ys[j]), min(len(xs), len(ys)))
+                rep.violation({"kind": "Class C twins diverge: a frame the reference rejects, heard while listening between the Class A windows, changed the "
+                                       "windows or a later response", "base_history": b, "case": t, "at_op": k,
+                               "base_output": (xs[k] if k < len(xs) else "<missing>")[:600], "twin_output": (ys[k] if k < len(ys) else "<missing>")[:600]}, concrete=True)
+    rep.cov["frontend_classc_twin_pairs"] = len(fc)
     rep.cov["frontend_twin_pairs"] = len(ft)
     rep.cov["twin_pairs"] = n
     rep.cov["rejected_frames_inserted"] = inserted
